@@ -195,9 +195,15 @@ def run(ctx):
     ref = {}
     dg3 = amp3.decay_group
     subsets = [list(c) for n in range(1, 4) for c in itertools.combinations(range(3), n)]
+    # the selection is a SEQUENCE: non-ascending orders (set_used_chains([2, 1]), the (i, j), i > j pairs of the
+    # fit-fraction loops) must give the same partial sum under every strategy
+    subsets += [[2, 1], [1, 0], [2, 0], [2, 0, 1], [1, 2, 0]]
     for sub in subsets:
         dg3.set_used_chains(sub)
         ref[tuple(sub)] = np.asarray(amp3.pdf(d3))
+        asc = tuple(sorted(sub))
+        if asc in ref and not close(ref[tuple(sub)], ref[asc], 1e-9):
+            ctx.violation("subset_order:default:chains=%s" % sub, {"max_rel": float(np.max(np.abs(ref[tuple(sub)] - ref[asc]) / np.abs(ref[asc])))})
     dg3.set_used_chains([0, 1, 2])
     nstr = 0
     for am, pre in pairs:
